@@ -287,6 +287,7 @@ def execute(trace) -> CaseResult:
         return sig
 
     async def diagnose_mismatch(rec, exp, bad):
+        """Name the smallest part of the program that is answered wrongly on its own (stable bucket sig)."""
         nodes = rec["nodes"]
         lv = G.leaves(nodes)
         detail = (f"'{rec['what']}' returned {sorted(x + 1 for x in rec['got'])}; evaluator expects "
@@ -295,33 +296,65 @@ def execute(trace) -> CaseResult:
             lf = lv[0]
             v("C14.eval." + G.KEYCLASS.get(lf[0], "other"), detail, leaf_sig(lf, bad))
             return
-        if state["diag"] >= 4:
-            v("C14.eval.composite", detail, "undiagnosed")
-            return
+        if state["diag"] >= 3:
+            return  # this case has already reported diagnosed mismatches
         state["diag"] += 1
-        # run every distinct leaf on its own, then re-read the flags and judge the leaves
-        runs = []
+        # every distinct sub-program on its own (leaves first, then composites bottom-up, then the whole
+        # program as plain SEARCH); afterwards re-read the flags and judge each against them
+        subs = []
         seen = set()
+
+        def add(kind, sub_nodes):
+            t = G.render(sub_nodes, ctx)
+            if t not in seen:
+                seen.add(t)
+                subs.append((kind, sub_nodes, t))
+
+        def walk(n):
+            k = n[0]
+            if k == "NOT":
+                walk(n[1])
+            elif k == "OR":
+                walk(n[1])
+                walk(n[2])
+            elif k == "AND":
+                for c in n[1]:
+                    walk(c)
+            else:
+                return
+            add("op", [n])
+
         for lf in lv:
-            t = G.render_node(lf, ctx)
-            if t in seen:
-                continue
-            seen.add(t)
+            add("leaf", [lf])
+        for n in nodes:
+            walk(n)
+        add("whole", nodes)
+        runs = []
+        for kind, sub_nodes, t in subs[:40]:
             r = await raw_search(t, False)
             if r.status != "OK":
+                if r.closed:
+                    await reconnect()
                 continue
             got = positions(r, False, "SEARCH " + t.decode("latin-1"), "")
             if got is not None:
-                runs.append((lf, t, got))
+                runs.append((kind, sub_nodes, t, got))
         ctx.flags = await read_flags()
-        for lf, t, got in runs:
-            e2, b2 = mismatches([lf], got)
-            if b2:
-                v("C14.eval." + G.KEYCLASS.get(lf[0], "other"),
-                  detail + f"; on its own 'SEARCH {t.decode('latin-1')}' returned {sorted(x + 1 for x in got)}, wrong at {[i + 1 for i in b2]}",
-                  leaf_sig(lf, b2))
-                return
-        v("C14.eval.composite", detail + "; every key on its own is answered correctly", "+".join(sorted(G.ops_of(nodes))))
+        for kind, sub_nodes, t, got in runs:
+            e2, b2 = mismatches(sub_nodes, got)
+            if not b2:
+                continue
+            more = f"; on its own 'SEARCH {t.decode('latin-1')}' returned {sorted(x + 1 for x in got)}, wrong at {[i + 1 for i in b2]}"
+            if kind == "leaf":
+                lf = sub_nodes[0]
+                v("C14.eval." + G.KEYCLASS.get(lf[0], "other"), detail + more, leaf_sig(lf, b2))
+            elif kind == "op":
+                v("C14.eval.composite", detail + more + " although its parts are answered correctly", {"AND": "LIST"}.get(sub_nodes[0][0], sub_nodes[0][0]))
+            else:
+                v("C14.eval.composite", detail + more + " although its keys are answered correctly", "JUXT")
+            return
+        v("C14.eval.composite", detail + "; every part, and the whole program as plain SEARCH, is answered correctly on its own",
+          "recent-dependent" if any(lf[0] in ("RECENT", "NEW", "OLD") for lf in lv) else "UID-SEARCH-only" if rec["uid"] else "not-reproducible")
 
     def observe_straddle(rec, exp):
         """Not an assertion: which reading of 'the date' does the server follow where the readings differ?"""
